@@ -105,7 +105,9 @@ def run(ctx):
         "meaning of 'decodable' in coq/c10/C10FileTheorems.v",
         "test driver: /repo/cmd/mp4ff-crop/c10_verif_test.go (add-only, //go:build verif) builds the boxes and calls the routines",
         "search oracle: harness/c09/tbl Expand (independent expansion) on the routines' results and on decoded output files; "
-        "closed formulas for the shifted offsets, the durations and the mdat bytes",
+        "closed formulas for the shifted offsets, the durations and the mdat bytes; whole tool: the decoded output must re-encode to "
+        "the output bytes, end with its one mdat, keep the non-mdat top-level boxes of the input in order, and be byte-identical "
+        "outside the sample tables once mvhd/tkhd Duration and elst SegmentDuration are blanked (harness checkUntouched)",
     ]
     ctx.assumptions += [
         "input tables satisfy C09Spec.consistent; 1 <= k <= N",
@@ -258,7 +260,8 @@ def run(ctx):
         ctx.cov["rule"] = ("corr: %d generated consistent tables, crop for every k in 0..N+1 (all six routines), findTrakEnds/findEndTime/"
                            "fillTrakOutsAndByteRanges/updateChunkOffsets/writeUptoMdat/writeMdat/cropMP4-on-virtual-file grids; distinct = "
                            "distinct (op,arg,tables); search: prefix property, offsets-inside-mdat, durations, mdat bytes on every result "
-                           "with the harness's own expansion + %d synthesized files x ~11 durations through the built binary" % (n, nf))
+                           "with the harness's own expansion + %d synthesized files x ~11 durations through the built binary (per-track prefix oracle + "
+                           "output-is-a-fixed-point / structure-intact oracle) + tool correspondence on the output bytes" % (n, nf))
     finally:
         shutil.rmtree(tmp, ignore_errors=True)
 
